@@ -408,6 +408,8 @@ structure BPage where
   cells : List Cell
   freeblocks : List Freeblock
   fragments : List Fragment
+  /-- `header.root_page_only_md5_hex_digest` input: page[100:] when the page carries the database header -/
+  rootOnly : List Nat := []
   deriving Repr, Inhabited
 
 /-- the type byte decision at the top of `BTreePage.__init__` -/
